@@ -368,6 +368,32 @@ func genSync(w *world, t *trace.W, r *rng.R, maxOps int, wild bool, reuse *int) 
 			}
 			f.connected, f.used = false, false
 		case 6: // a burst of changes
+			// now and then while the stream of a live follower is busy (its Send parked before it serialises)
+			live := -1
+			for i, f := range fols {
+				if f.connected {
+					live = i
+				}
+			}
+			if live >= 0 && r.Bool(1, 2) {
+				var specs []string
+				for len(specs) < 2 || (len(specs) < 4 && r.Bool(1, 2)) {
+					specs = append(specs, g.mutate(false)...)
+				}
+				if len(specs) > 5 {
+					specs = specs[:5]
+				}
+				if v, ok := obsField(w.do(t, fmt.Sprintf("burst %d %s", live, strings.Join(specs, " "))), "next"); ok {
+					lnext = v
+					for _, f := range fols {
+						if f.connected {
+							f.next = v
+						}
+					}
+				}
+				w.do(t, fmt.Sprintf("check %d", live))
+				continue
+			}
 			nb := r.Range(2, 12)
 			if r.Bool(1, 8) {
 				nb = r.Range(90, 130)
@@ -432,7 +458,29 @@ func genHB(w *world, t *trace.W, r *rng.R, maxOps int) {
 	}
 	ops := r.Range(5, maxOps*2)
 	for k := 0; k < ops; k++ {
-		switch r.Pick(30, 14, 34, 6, 8, 8) {
+		switch r.Pick(30, 14, 34, 6, 8, 8, 10) {
+		case 6: // a caller keeps an answer, the buffer moves on (past a wrap-around), the caller looks again
+			slot := r.Intn(3)
+			var idx uint64
+			if next > first {
+				idx = first + uint64(r.Intn(int(next-first)))
+			}
+			if r.Bool(1, 3) {
+				idx = first
+			}
+			w.do(t, fmt.Sprintf("hb hold %d %d", slot, idx))
+			n := []int{1, c, c + 1, 2*c + 1, c / 2}[r.Intn(5)]
+			if n < 1 {
+				n = 1
+			}
+			upd(w.do(t, fmt.Sprintf("hb recn %d %d", n, id)))
+			id += uint64(n)
+			w.do(t, fmt.Sprintf("hb recheck %d", slot))
+			if r.Bool(1, 3) {
+				upd(w.do(t, fmt.Sprintf("hb rec %d", id)))
+				id++
+				w.do(t, fmt.Sprintf("hb recheck %d", r.Intn(3)))
+			}
 		case 0:
 			upd(w.do(t, fmt.Sprintf("hb rec %d%s", id, fail())))
 			id++
